@@ -70,6 +70,45 @@ class Facts:
             self._bodies[key] = Body(self, g)
         return self._bodies[key]
 
+    def effective_owner(self, f):
+        """a function that did not exist at the pinned commit and is used (called, or passed by name to a combinator such
+        as `Result::map`) by exactly one function of the pinned tree acts on behalf of that function: return it (else f)"""
+        if f["id"] not in self.transparent:
+            return f
+        if not hasattr(self, "_users"):
+            users = defaultdict(set)
+            by_name = {re.sub(r"<.*?>", "", g["name"]): g["id"] for g in self.fns}
+            for g in self.fns:
+                gid = g["id"]
+                while self.fns[gid].get("kind") == "closure" and "parent" in self.fns[gid]:
+                    gid = self.fns[gid]["parent"]
+                for blk in g.get("blocks", []):
+                    t = blk["t"]
+                    if t["k"] != "call":
+                        continue
+                    c = t.get("callee") or {}
+                    for x in (c.get("rfn"), c.get("def_fn")):
+                        if x is not None:
+                            users[x].add(gid)
+                    for a in t["args"]:
+                        cc = a.get("c") if isinstance(a, dict) else None
+                        if cc and cc.get("fn"):
+                            x = by_name.get(re.sub(r"<.*?>", "", cc["fn"]))
+                            if x is not None:
+                                users[x].add(gid)
+            self._users = users
+        seen = set()
+        cur = f
+        for _ in range(4):
+            us = {u for u in self._users.get(cur["id"], ()) if u != cur["id"]}
+            if len(us) != 1:
+                return f if cur is f else cur
+            cur = self.fns[next(iter(us))]
+            if cur["id"] not in self.transparent or cur["id"] in seen:
+                return cur
+            seen.add(cur["id"])
+        return cur
+
     def ret_fields(self, t, _depth=0):
         """names of the fields the result of a call to a crate-local function is read from (summary of the callee's
         return value, two levels deep): lets a provenance rule see through an accessor such as `self.data_size()`"""
@@ -804,7 +843,7 @@ class Body:
         return (self.origins(t["op"]), t["vals"], t["targets"], t["otherwise"])
 
     # ---- conditional constant propagation ---------------------------------------------
-    def explore(self, assume_locals=None, assume_discr=None, assume_calls=None, start=0, avoid=(), max_states=60000):
+    def explore(self, assume_locals=None, assume_discr=None, assume_calls=None, start=0, avoid=(), max_states=60000, assume_fields=None):
         """Path-sensitive conditional constant propagation under assumptions (a classic dataflow analysis, made
         path-sensitive by keeping one abstract environment per path instead of joining): returns (blocks reachable,
         edges taken). `assume_locals` {local: bool|int} fixes parameters; `assume_discr` {regex on the enum path:
@@ -815,6 +854,7 @@ class Body:
         assume_locals = dict(assume_locals or {})
         assume_discr = assume_discr or {}
         assume_calls = assume_calls or {}
+        assume_fields = assume_fields or {}     # {field name: value}: every read of a place ending in that field
         escaped = set()
         for blk in self.blocks:
             for st in blk["s"]:
@@ -859,6 +899,10 @@ class Body:
             pl = op_place(op)
             if pl is None:
                 return None
+            if assume_fields and pl.get("p"):
+                last = pl["p"][-1]
+                if isinstance(last, dict) and last.get("n") in assume_fields:
+                    return assume_fields[last["n"]]
             v = env.get(pl["l"])
             for e in pl.get("p") or []:
                 # payload of a known aggregate: (x as Variant).i / x.i
@@ -979,6 +1023,23 @@ class Body:
                 edges.add((bb, y))
                 work.append((y, e2))
         return reach, edges
+
+    def whole_copies(self, seed):
+        """locals holding the same value as the seeds: plain moves / copies / borrows of the WHOLE local (a value built
+        from a part of it -- a payload, a field -- is another value)"""
+        tl = set(seed)
+        changed = True
+        while changed:
+            changed = False
+            for blk in self.blocks:
+                for s in blk["s"]:
+                    if s["k"] == "assign" and not s["lhs"].get("p") and s["lhs"]["l"] not in tl:
+                        rv = s["rv"]
+                        src = op_place(rv["op"]) if rv["k"] == "use" else (rv["pl"] if rv["k"] == "ref" else None)
+                        if src is not None and src["l"] in tl and not [e for e in src.get("p", []) if e != "*"]:
+                            tl.add(s["lhs"]["l"])
+                            changed = True
+        return tl
 
     def _discr_of(self, rv):
         """declared discriminant of the variant built by an aggregate rvalue (variant index when not an enum of the crate)"""
